@@ -211,8 +211,8 @@ func c14Inputs(c *ctx, emit func(label string, bs []byte)) {
 		{'C', 0x05, 'O', 'u', 't', 'e', 'r', 0x91, 0x02, 'i', 'n', 0x60, 0x60},                                      // an Outer where an Inner is expected
 		{'C', 0x05, 'O', 'u', 't', 'e', 'r', 0x91, 0x01, 'p', 0x60, 0x90},
 		{'C', 0x05, 'L', 'i', 's', 't', 's', 0x91, 0x04, 'i', '3', '2', 's', 0x60, 0x58, 0x92, 0x01, 'a', 'T'}, // strings and bools into []int32
-		{'C', 0x04, 'M', 'a', 'p', 's', 0x91, 0x02, 's', 'i', 0x60, 'H', 0x90, 0x01, 'x', 'Z'},                  // int key into map[string]int32
-		{'C', 0x04, 'M', 'a', 'p', 's', 0x91, 0x02, 's', 'i', 0x60, 'H', 0x57, 'Z', 0x90, 'Z'},                  // a list as a map key (unhashable)
+		{'C', 0x04, 'M', 'a', 'p', 's', 0x91, 0x02, 's', 'i', 0x60, 'H', 0x90, 0x01, 'x', 'Z'},                 // int key into map[string]int32
+		{'C', 0x04, 'M', 'a', 'p', 's', 0x91, 0x02, 's', 'i', 0x60, 'H', 0x57, 'Z', 0x90, 'Z'},                 // a list as a map key (unhashable)
 		{'H', 0x57, 'Z', 0x90, 'Z'}, {'H', 'H', 'Z', 0x90, 'Z'}, // unhashable keys in an untyped map
 	}
 	for d := 10; d <= 65000; d *= 5 { // deep nesting: depth bounded by the input length
